@@ -25,7 +25,7 @@ SUR = "\ud800"
 GOOGLE_LINES = [
     "", "Summary.", "Args:", "Args: ", "Returns:", "Yields:", "Receives:", "Raises:", "Attributes:", "Examples:", "Note:", "Note: title", "Other Parameters:",
     "Functions:", "Classes:", "Modules:", "Warns:",
-    "    x: desc", "    x (int): desc", "    y (" + SUR + "): desc", "    (int): desc", "    z (await w): desc", "    int: desc", "    : desc", "    nocolon", "        continuation",
+    "    x: desc", "    x : desc", "    x (int): desc", "    y (" + SUR + "): desc", "    (int): desc", "    z (await w): desc", "    int: desc", "    : desc", "    nocolon", "        continuation",
     "      odd indent", "  two", "    ", "```", "    >>> print(1)  # doctest: +SKIP", "    text", ":", "a:",
 ]
 NUMPY_LINES = [
